@@ -659,6 +659,7 @@ func VerifC20_Reconcile() {
 		before := g.pc
 		wantErr := false
 		kept := false
+		crdEarlyReturn := false
 		switch {
 		case kinds[i] == verifC20EvAPIError:
 			rt.Cover("api-error")
@@ -680,6 +681,7 @@ func VerifC20_Reconcile() {
 				syncErrors++ // the warning event about the missing subresource
 			}
 			kept = true
+			crdEarlyReturn = true
 		case g.stored == g.running:
 			rt.Cover("noop-update")
 			kept = true
@@ -748,9 +750,9 @@ func VerifC20_Reconcile() {
 			// A CRD without status subresource must not start anything new; an
 			// instance running with a spec that has been replaced meanwhile is
 			// left running by the early return.
-			if g.stored != g.running {
+			if crdEarlyReturn && g.stored != g.running {
 				rt.Cover("crd-without-status-while-spec-changed")
-				rt.Assert(false, "crd-without-status/instance-with-replaced-spec-left-running")
+				rt.Assert(cur != before, "crd-without-status/instance-with-replaced-spec-left-running")
 			}
 			rt.Assert(!stub.Closed(cur.stopCh), "running/stop-channel-closed")
 			_, handlers, each := verifC20Handlers(cur, 1)
